@@ -17,7 +17,7 @@ func init() {
 	register("C05", checkC05)
 	describe("C05", Meta{
 		Technique: "pass-table extraction from go/constant values (order, exhaustiveness, default mask), effect classification of every pass on go/ssa (which passes shift line indices), and switch-table agreement between each opcode's HLAssemblerMatch patterns and HLAssemblerNormalize",
-		Claim:     "Decides structural clauses of C05: (a) the symbol tagger runs after the last pass that can shift instruction indices and before the resolver, the resolver is the last pass, and the default pass mask enables every mandatory pass; (b) every pass constant has an entry in each of the four pass tables (a missing function entry is a nil call); (c) every operation name an opcode advertises in HLAssemblerMatch has a case in its HLAssemblerNormalize that rewrites the operation to the opcode's own name (or is already it), so no pseudo-instruction survives to Arch.Assembler or is assembled by the wrong opcode. Necessary conditions for 'every label denotes the instruction that followed it' and 'each pseudo-instruction is replaced'; the values (which index, which opcode among several matches, metadata precedence, literals) are not decided.",
+		Claim:     "Decides structural clauses of C05: (a) the symbol tagger runs after the last pass that can shift instruction indices and before the resolver, the resolver is the last pass, and the default pass mask enables every mandatory pass; (b) every pass constant has an entry in each of the four pass tables (a missing function entry is a nil call); (c) every operation name an opcode advertises in HLAssemblerMatch has a case in its HLAssemblerNormalize that rewrites the operation to the opcode's own name (or is already it), so no pseudo-instruction survives to Arch.Assembler or is assembled by the wrong opcode. (d) FRESHNAME: a pass that files a section/fragment/macro/chunk under a numbered name it builds itself has tested that the name is free in the table it stores to and in the instance table of that kind, so a generated copy cannot replace a section of the program. Necessary conditions for 'every label denotes the instruction that followed it' and 'each pseudo-instruction is replaced'; the values (which index, which opcode among several matches, metadata precedence, literals) are not decided.",
 		Note:      "A pass is index-shifting when it, or a module function it reaches, stores to BasmBody.Lines or inserts into the sections or fragments maps (new code that needs tagging); deleting a whole section does not move the labels of the others (decided on SSA with CHA). Optional passes are considered both enabled and disabled.",
 		DesignRef: "DESIGN.md §2 C05",
 	})
@@ -279,9 +279,195 @@ func checkC05(r *core.Run) {
 		})
 	})
 	c05Pseudo(r, prog)
+	c05FreshNames(r, prog)
 }
 
 // (c) pattern names vs normaliser cases
+// c05FreshNames (C05/FRESHNAME): a pass that files a section / fragment / macro / chunk under a
+// numbered name it builds itself (a key containing strconv.Itoa or fmt.Sprint of an integer) must
+// have tested, in the same function, that the name is free — in the table it stores to and in every
+// table of the instance holding entries of the same kind. Without the test a generated copy can take
+// the name of a section the program defines (or of an earlier copy) and silently replace its code:
+// the processor whose romcode names that section then runs other code than its source says.
+func c05FreshNames(r *core.Run, prog *core.Program) {
+	pk := prog.Pkg("pkg/basm")
+	info := pk.TypesInfo
+	named := map[string]bool{"BasmSection": true, "BasmFragment": true, "BasmMacro": true, "BasmChunk": true}
+	tableKind := func(e ast.Expr) string {
+		t := info.TypeOf(e)
+		if t == nil {
+			return ""
+		}
+		m, ok := t.Underlying().(*types.Map)
+		if !ok {
+			return ""
+		}
+		if b, ok := m.Key().Underlying().(*types.Basic); !ok || b.Kind() != types.String {
+			return ""
+		}
+		el := m.Elem()
+		if p, ok := el.(*types.Pointer); ok {
+			el = p.Elem()
+		}
+		if n, ok := el.(*types.Named); ok && named[n.Obj().Name()] && n.Obj().Pkg() == pk.Types {
+			return n.Obj().Name()
+		}
+		return ""
+	}
+	// instance tables per kind
+	instTables := map[string][]string{}
+	if tn, ok := pk.Types.Scope().Lookup("BasmInstance").(*types.TypeName); ok {
+		if st, ok := tn.Type().Underlying().(*types.Struct); ok {
+			for i := 0; i < st.NumFields(); i++ {
+				if m, ok := st.Field(i).Type().Underlying().(*types.Map); ok {
+					el := m.Elem()
+					if p, ok := el.(*types.Pointer); ok {
+						el = p.Elem()
+					}
+					if n, ok := el.(*types.Named); ok && named[n.Obj().Name()] {
+						instTables[n.Obj().Name()] = append(instTables[n.Obj().Name()], st.Field(i).Name())
+					}
+				}
+			}
+		}
+	}
+	n := 0
+	core.FuncDecls(pk, func(_ *ast.File, fd *ast.FuncDecl) {
+		// single-assignment string locals, for inlining
+		defs := map[types.Object]ast.Expr{}
+		cnt := map[types.Object]int{}
+		ast.Inspect(fd.Body, func(k ast.Node) bool {
+			if as, ok := k.(*ast.AssignStmt); ok && len(as.Lhs) == len(as.Rhs) {
+				for i, l := range as.Lhs {
+					if id, ok := l.(*ast.Ident); ok {
+						if o := info.ObjectOf(id); o != nil {
+							cnt[o]++
+							defs[o] = as.Rhs[i]
+						}
+					}
+				}
+			}
+			return true
+		})
+		var inline func(e ast.Expr, d int) string
+		inline = func(e ast.Expr, d int) string {
+			switch x := ast.Unparen(e).(type) {
+			case *ast.Ident:
+				if o := info.ObjectOf(x); o != nil && cnt[o] == 1 && d < 4 {
+					if b, ok := o.Type().Underlying().(*types.Basic); ok && b.Info()&types.IsString != 0 {
+						return inline(defs[o], d+1)
+					}
+				}
+				return x.Name
+			case *ast.BinaryExpr:
+				return inline(x.X, d) + x.Op.String() + inline(x.Y, d)
+			}
+			return types.ExprString(e)
+		}
+		numbered := func(e ast.Expr, d int) bool {
+			found := false
+			var visit func(e ast.Expr, d int)
+			visit = func(e ast.Expr, d int) {
+				ast.Inspect(e, func(k ast.Node) bool {
+					switch x := k.(type) {
+					case *ast.CallExpr:
+						if c := core.CalleeOf(info, x); c != nil && c.Pkg() != nil {
+							if (c.Pkg().Path() == "strconv" && (c.Name() == "Itoa" || c.Name() == "FormatInt")) || (c.Pkg().Path() == "fmt" && strings.HasPrefix(c.Name(), "Sprint")) {
+								for _, a := range x.Args {
+									if tv, ok := info.Types[a]; ok && tv.Value == nil {
+										if b, ok := tv.Type.Underlying().(*types.Basic); ok && b.Info()&types.IsInteger != 0 {
+											found = true
+										}
+									}
+								}
+							}
+						}
+					case *ast.Ident:
+						if o := info.ObjectOf(x); o != nil && cnt[o] == 1 && d < 4 {
+							if b, ok := o.Type().Underlying().(*types.Basic); ok && b.Info()&types.IsString != 0 {
+								visit(defs[o], d+1)
+							}
+						}
+					}
+					return true
+				})
+			}
+			visit(e, d)
+			return found
+		}
+		// absence tests: v, ok := M[k]
+		tests := map[string]bool{} // "<table expr>|<key>"
+		ast.Inspect(fd.Body, func(k ast.Node) bool {
+			var lhs, rhs []ast.Expr
+			switch x := k.(type) {
+			case *ast.AssignStmt:
+				lhs, rhs = x.Lhs, x.Rhs
+			default:
+				return true
+			}
+			if len(lhs) == 2 && len(rhs) == 1 {
+				if ie, ok := ast.Unparen(rhs[0]).(*ast.IndexExpr); ok && tableKind(ie.X) != "" {
+					tests[types.ExprString(ie.X)+"|"+inline(ie.Index, 0)] = true
+				}
+			}
+			return true
+		})
+		recvName := ""
+		if fd.Recv != nil && len(fd.Recv.List) > 0 && len(fd.Recv.List[0].Names) > 0 {
+			recvName = fd.Recv.List[0].Names[0].Name
+		} else {
+			for _, p := range fd.Type.Params.List {
+				if t := info.TypeOf(p.Type); t != nil && strings.HasSuffix(t.String(), "basm.BasmInstance") && len(p.Names) > 0 {
+					recvName = p.Names[0].Name
+				}
+			}
+		}
+		k := 0
+		ast.Inspect(fd.Body, func(nd ast.Node) bool {
+			as, ok := nd.(*ast.AssignStmt)
+			if !ok {
+				return true
+			}
+			for _, l := range as.Lhs {
+				ie, ok := ast.Unparen(l).(*ast.IndexExpr)
+				if !ok {
+					continue
+				}
+				kind := tableKind(ie.X)
+				if kind == "" || !numbered(ie.Index, 0) {
+					continue
+				}
+				k++
+				n++
+				key := inline(ie.Index, 0)
+				need := []string{types.ExprString(ie.X)}
+				if recvName != "" {
+					for _, f := range instTables[kind] {
+						t := recvName + "." + f
+						if t != need[0] {
+							need = append(need, t)
+						}
+					}
+				}
+				var missing []string
+				for _, t := range need {
+					if !tests[t+"|"+key] {
+						missing = append(missing, t)
+					}
+				}
+				inst := fmt.Sprintf("C05/FRESHNAME:%s:store%d:%s", core.FuncKey(pk, fd), k, types.ExprString(ie.X))
+				if len(missing) == 0 {
+					r.OK("C05/FRESHNAME", inst, prog.Pos(as.Pos()), "the numbered name is tested to be free in ["+strings.Join(need, ", ")+"] before it is used")
+				} else {
+					r.Violation("C05/FRESHNAME", inst, prog.Pos(as.Pos()), fmt.Sprintf("%s files a %s under the numbered name %s without having tested that the name is free in [%s]: a generated copy can take the name of a section the program defines itself (e.g. `worker` and `worker_0`) or of an earlier copy and replace its code; the processor whose romcode/ramcode names that section then runs other code than its source says", core.FuncKey(pk, fd), kind, types.ExprString(ie.Index), strings.Join(missing, ", ")))
+				}
+			}
+			return true
+		})
+	})
+	r.Count("numbered_name_stores", n)
+}
+
 func c05Pseudo(r *core.Run, prog *core.Program) {
 	pk := prog.Pkg("pkg/procbuilder")
 	info := pk.TypesInfo
